@@ -195,6 +195,7 @@ def discharge(ob: Obligation, timeout_ms=None, witness_terms=None):
     status = "proved"
     secs = 0.0
     backends = {}
+    cross = {}
     witness = None
     reason = ""
     nvc = len(ob.vcs)
@@ -206,6 +207,8 @@ def discharge(ob: Obligation, timeout_ms=None, witness_terms=None):
         r = solve.check_vc(vc.pc, vc.goal, timeout_ms)
         secs += r.seconds
         backends[r.backend] = backends.get(r.backend, 0) + 1
+        if r.status == "proved" and (r.reason or "").startswith("cross:"):
+            cross[r.reason[6:]] = cross.get(r.reason[6:], 0) + 1
         if r.status == "refuted":
             status = "refuted"
             if r.model is not None and witness_terms:
@@ -216,7 +219,7 @@ def discharge(ob: Obligation, timeout_ms=None, witness_terms=None):
             status = "unknown"
             reason = r.reason
     return {"id": ob.oid, "kind": ob.kind, "status": status, "vcs": nvc, "seconds": round(secs, 4),
-            "backends": backends, "witness": witness, "reason": reason, "loc": ob.loc}
+            "backends": backends, "witness": witness, "reason": reason, "loc": ob.loc, "cross": cross}
 
 
 def _decode(model, t):
